@@ -96,6 +96,8 @@ def compute_surface(F):
     S["stream"]["cabac-geometry"] = {f["name"]: f["ty"] for f in a["variants"][0]["fields"] if f["ty"].startswith("[")}
     # ---- named consts / statics referenced from reconstruction-reachable code -----------------------
     leaves, par, defs = pure_leaves(F)
+    from .. import lazy
+    LZ = lazy.lazy_statics(F)
     used = {}
     for d in defs:
         b = F.bodies[d]
@@ -126,6 +128,8 @@ def compute_surface(F):
             val = v["int"]
         else:
             raw = c.get("bytes") or (v.get("indirect") or v.get("ptr") or v.get("slice") or {}).get("bytes")
+            if not raw and nm in LZ and LZ[nm]["ok"]:
+                raw = LZ[nm]["bytes"]        # LazyLock<T> around a literal: the value the initialiser returns
             val = "sha256:" + hashlib.sha256(bytes.fromhex(raw)).hexdigest()[:24] + ":len%d" % (len(raw) // 2) if raw else "opaque:" + c["ty"]
         part = "container" if nm.startswith(PC) and nm.split("::")[-1] in ("LITERAL_CHUNK", "DEFLATE_STREAM", "PNG_COMPRESSED", "COMPRESSED_WRAPPER_VERSION_1") else "stream"
         if nm.split("::")[-1] in ("COMPRESSED_WRAPPER_VERSION_1", "FILE_VERSION"):
@@ -133,6 +137,7 @@ def compute_surface(F):
         S[part]["const:" + nm.replace(P, "")] = val
     # ---- decision thresholds of the looping functions (V4) ------------------------------------------------
     S["stream"]["thresholds"] = thresholds(F, [d for d in defs if d not in leaves])
+    S["stream"]["arith"] = arith(F, [d for d in defs if d not in leaves])
     # ---- closed forms -------------------------------------------------------------------------------
     for d in leaves:
         try:
@@ -193,8 +198,6 @@ def thresholds(F, fns):
     cnt = Counter()
     for d in fns:
         b = F.bodies[d]
-        if not closed.has_loop(b):
-            continue
         for sb in sorted(b.normal_blocks()):
             st = b.term(sb)
             if st["k"] != "switch":
@@ -233,6 +236,85 @@ def thresholds(F, fns):
                 ty = st.get("dty", "?")
                 if re.match(r"^[ui](8|16|32|64|size)$", ty):
                     cnt[(ty, "switch", tuple(sorted(v for v, _ in st["targets"])))] += 1
+    return [[list(k), v] for k, v in sorted(cnt.items(), key=lambda kv: repr(kv[0]))]
+
+
+_NUM_METHODS = re.compile(r"(?:^|::)(wrapping_mul|wrapping_add|wrapping_sub|wrapping_shl|wrapping_shr|rotate_left|rotate_right|pow|"
+                          r"saturating_add|saturating_sub|saturating_mul|checked_add|checked_sub|checked_mul|checked_shl|checked_shr|"
+                          r"overflowing_add|overflowing_sub|overflowing_mul|min|max|clamp|trailing_zeros|leading_zeros|swap_bytes|reverse_bits)$")
+_ASSERT_MACROS = ("assert", "assert_eq", "assert_ne", "debug_assert", "debug_assert_eq", "debug_assert_ne")
+
+
+def _self_update(b, s, xp):
+    """`x = x + 1` / `x -= 1` (the counter idiom): the result of the operation is stored back into its own operand."""
+    if xp is None or xp["p"] or s["p"]["p"]:
+        return False
+    t, x = s["p"]["l"], xp["l"]
+    if t == x:
+        return True
+    for bb in b.normal_blocks():
+        for s2 in b.stmts(bb):
+            if s2.get("k") == "assign" and s2["r"].get("k") == "use" and not s2["p"]["p"] and s2["p"]["l"] == x:
+                p = op_place(s2["r"]["op"])
+                if p is not None and p["l"] == t:
+                    return True
+    return False
+
+
+def arith(F, fns):
+    """Global multiset of `value op constant` computations in the given functions (everything on the reconstruction path
+    that has no closed form): shifts, masks, multipliers, divisors, offsets — the arithmetic of hash functions, bit packing
+    and length/offset conversions.  Canonical: constant on either side of a commutative operator; x*2^k = x<<k,
+    x/2^k = x>>k, x%2^k = x&(2^k-1) for unsigned x; integer-method calls with a constant argument (wrapping_mul(K),
+    rotate_left(K), min(K) ...) count like operators.  Not counted: x = x + 1 / x = x - 1 stored back into x (the counter idiom, which a rewrite into an
+    iterator removes without changing behaviour), anything that only feeds an assertion, compiler-inserted checks."""
+    from collections import Counter
+    cnt = Counter()
+    for d in fns:
+        b = F.bodies[d]
+        for bb in sorted(b.normal_blocks()):
+            for s in b.stmts(bb):
+                if s.get("k") != "assign" or s["r"].get("k") != "binop":
+                    continue
+                r = s["r"]
+                op = r["op"].replace("WithOverflow", "").replace("Unchecked", "")
+                if op not in ("Add", "Sub", "Mul", "Div", "Rem", "Shl", "Shr", "BitAnd", "BitOr", "BitXor"):
+                    continue
+                if any(m in _ASSERT_MACROS for m in macro_names(s.get("exp"))):
+                    continue
+                if not s["p"]["p"] and _feeds_only_assert(b, s["p"]["l"]):
+                    continue
+                kl, kr = flow.const_eval(b, r["l"]), flow.const_eval(b, r["r"])
+                if (kl is None) == (kr is None):
+                    continue
+                if kl is not None and op not in ("Add", "Mul", "BitAnd", "BitOr", "BitXor"):
+                    atom = ("K" + op, kl)            # constant on the left of a non-commutative operator: K - x, K >> x, K / x
+                else:
+                    k = kr if kr is not None else kl
+                    xp = op_place(r["l"] if kr is not None else r["r"])
+                    ty = b.local_ty(xp["l"]) if xp is not None and not xp["p"] else "?"
+                    pow2 = k > 0 and (k & (k - 1)) == 0
+                    if op == "Mul" and pow2:
+                        op, k = "Shl", k.bit_length() - 1
+                    elif op == "Div" and pow2 and ty.startswith("u"):
+                        op, k = "Shr", k.bit_length() - 1
+                    elif op == "Rem" and pow2 and ty.startswith("u"):
+                        op, k = "BitAnd", k - 1
+                    if op in ("Add", "Sub") and (k == 0 or (k == 1 and _self_update(b, s, xp))):
+                        continue
+                    if op in ("Shl", "Shr", "BitOr", "BitXor") and k == 0:
+                        continue
+                    atom = (op, k)
+                cnt[atom] += 1
+            t = b.term(bb)
+            if t["k"] == "call":
+                n = strip_generics(callee_def(t))
+                m = _NUM_METHODS.search(n)
+                if m and re.search(r"(^|::)(core|std)::|num::|cmp::", n) and not any(x in _ASSERT_MACROS for x in macro_names(t.get("exp"))):
+                    ks = [flow.const_eval(b, a) for a in t["args"]]
+                    ks = [k for k in ks if k is not None]
+                    if ks and len(ks) < len(t["args"]):
+                        cnt[(m.group(1),) + tuple(ks)] += 1
     return [[list(k), v] for k, v in sorted(cnt.items(), key=lambda kv: repr(kv[0]))]
 
 
@@ -335,11 +417,12 @@ def run(ctx, rep):
                 rep.add(rule, k, True, "", "differs from the reference, announced by the %s version change" % GATE[part])
             else:
                 what = "removed from" if cv is None else ("new in" if rv is None else "changed in")
-                if k == "thresholds" and isinstance(rv, list) and isinstance(cv, list):
+                if k in ("thresholds", "arith") and isinstance(rv, list) and isinstance(cv, list):
                     ra, ca = {json.dumps(a): n for a, n in rv}, {json.dumps(a): n for a, n in cv}
                     gone = ["%s x%d" % (a, ra[a] - ca.get(a, 0)) for a in ra if ra[a] > ca.get(a, 0)]
                     new = ["%s x%d" % (a, ca[a] - ra.get(a, 0)) for a in ca if ca[a] > ra.get(a, 0)]
-                    rv, cv = "decisions no longer present: %s" % gone, "new decisions: %s" % new
+                    noun = "decisions" if k == "thresholds" else "operations with a constant"
+                    rv, cv = "%s no longer present: %s" % (noun, gone), "new %s: %s" % (noun, new)
                 rep.add(rule, k, False, "", "%s the format surface while %s is unchanged: stored data of the reference build would be interpreted differently. reference=%s current=%s" % (
                     what, {"wrapper": "COMPRESSED_WRAPPER_VERSION_1", "file": "FILE_VERSION"}[GATE[part]], _short(rv), _short(cv)))
     rep.floor("V2", "surface-items", n, 60)
